@@ -627,6 +627,150 @@ def _exp_of(factor, power):
     return e if abs(float(factor) - ref) <= 1e-15 * ref else None
 
 
+GROUP_POOL = {
+    "legendgroup": ["", "A", "A1", "B", None],
+    "opacity": [1, 1.0, 0.5, "0.5", 0.51, None, 11],
+    "row": [1, 11, 2, "1", None, 12],
+    "col": [1, 11, 2, 12, 21, None],
+    "color": ["red", "blue", None, "", "r"],
+    "colorscale": ["Viridis", None, "ed"],
+    "mode": ["lines", "markers", "lines+markers", None, ""],
+    "marker_color": ["red", None, "k"], "marker_symbol": ["circle", "x"], "marker_size": [1, 2, 12], "marker": ["m"],
+    "line_dash": ["solid", "dash"], "line_color": ["red", "k", None], "line_width": [1, 2, 21],
+}
+
+
+def gen_group(rng):
+    """random plotly-style trace dicts for group_traces: type mesh3d / scatter3d / other, a random subset of the keys that enter the group key (values from
+    small pools chosen so that different value tuples can concatenate to the same string: row 1 col 12 / row 11 col 2, opacity 0.5 row 11 / opacity 0.51 row 1,
+    numbers and their strings), nested `line` / `marker` dicts (linearised by the function), keys that do NOT enter (name, showlegend); each trace's x holds its
+    index so that the members of a merged trace can be read off"""
+    n = rng.randint(1, 7)
+    ts = []
+    base = None
+    for idx in range(n):
+        if base is not None and rng.random() < 0.45:
+            t = {k: (dict(v) if isinstance(v, dict) else v) for k, v in base.items()}  # a copy of an earlier trace: same group unless perturbed
+            if rng.random() < 0.5:
+                k = rng.choice(["row", "col", "opacity", "legendgroup", "color"])
+                t[k] = rng.choice(GROUP_POOL[k])
+        else:
+            ty = rng.choice(["mesh3d", "mesh3d", "scatter3d", "scatter3d", "surface"])
+            t = {"type": ty}
+            for k in ("legendgroup", "opacity", "row", "col", "color"):
+                if rng.random() < 0.6:
+                    t[k] = rng.choice(GROUP_POOL[k])
+            if ty == "mesh3d":
+                if rng.random() < 0.4:
+                    t["colorscale"] = rng.choice(GROUP_POOL["colorscale"])
+                t["_fc"] = rng.random() < 0.3
+            elif ty == "scatter3d":
+                if rng.random() < 0.7:
+                    t["mode"] = rng.choice(GROUP_POOL["mode"])
+                for grp in ("line", "marker"):
+                    r = rng.random()
+                    sub = {a: rng.choice(GROUP_POOL[f"{grp}_{a}"]) for a in (("dash", "color", "width") if grp == "line" else ("color", "symbol", "size")) if rng.random() < 0.5}
+                    if r < 0.35:
+                        t[grp] = sub  # nested dict
+                    elif r < 0.6:
+                        for a, v in sub.items():
+                            t[f"{grp}_{a}"] = v  # already flat
+                    elif r < 0.65 and grp == "marker":
+                        t["marker"] = "m"  # a non-dict value under the key `marker`
+            if rng.random() < 0.3:
+                t["name"] = rng.choice(["n1", "n2"])
+            base = t
+        t = dict(t)
+        t["_id"] = idx
+        ts.append(t)
+    return ts
+
+
+def _group_flat(t):
+    """(type, facecolor is None, [(linearised key, str(value))]) of a generated trace — the harness's own flattening, nested dicts one level"""
+    props = []
+    for k, v in t.items():
+        if k in ("_id", "_fc", "type"):
+            continue
+        if isinstance(v, dict):
+            props += [(f"{k}_{a}", str(b)) for a, b in v.items()]
+        else:
+            props.append((k, str(v)))
+    return t["type"], not t.get("_fc", False), props
+
+
+def group_line(ts):
+    out = [f"disp group {len(ts)}"]
+    for t in ts:
+        ty, fcnone, props = _group_flat(t)
+        out.append(f"{ty} {int(fcnone)} {len(props)} " + " ".join(f"{k} ~{v}" for k, v in props))
+    return " ".join(out)
+
+
+def real_group(ts):
+    from magpylib._src.display.traces_utility import group_traces
+
+    real_ts = []
+    for t in ts:
+        d = {k: (dict(v) if isinstance(v, dict) else v) for k, v in t.items() if k not in ("_id", "_fc")}
+        i = float(t["_id"])
+        d.update(x=np.array([i, i, i]), y=np.zeros(3), z=np.zeros(3))
+        if t["type"] == "mesh3d":
+            d.update(i=np.array([0]), j=np.array([1]), k=np.array([2]))
+            if t.get("_fc"):
+                d["facecolor"] = np.array(["red"])
+        real_ts.append(d)
+    try:
+        out = group_traces(*real_ts)
+    except Exception as e:  # noqa: BLE001
+        return f"err {type(e).__name__}"
+    res = []
+    for o in out:
+        ids = [int(v) for v in np.asarray(o["x"], dtype=object).reshape(-1) if v is not None]
+        ids = list(dict.fromkeys(ids))
+        res.append(f"{o['type']}:" + ",".join(map(str, ids)))
+    return "ok " + " ".join(res)
+
+
+def real_wind(tb, c):
+    """winding report of the real generator's index arrays: `ok <faces> ; <directed edges not used exactly once> ; <directed edges whose reverse
+    is not used>`, both in order of first occurrence among (i>j, j>k, k>i) face by face"""
+    gen = c[1]
+    try:
+        if gen == "seg":
+            N, full = c[2], c[3]
+            dim = np.array([0.5, 1.0, 1.0, 0.0, 360.0]) if full else np.array([0.5, 1.0, 1.0, 0.0, 90.0])
+            t = tb.make_CylinderSegment("generic", dimension=dim, vert=N if full else 4 * N)["kwargs"]
+            if len(t["x"]) != 4 * N:
+                return f"harness: arc count {len(t['x']) // 4} instead of {N}"
+        elif gen == "ell":
+            t = tb.make_Ellipsoid("generic", vert=c[2])["kwargs"]
+        elif gen == "prism":
+            t = tb.make_Prism("generic", base=c[2])["kwargs"]
+        elif gen == "pyr":
+            t = tb.make_Pyramid("generic", base=c[2])["kwargs"]
+        elif gen == "arrow":
+            t = tb.make_Arrow("generic", base=c[2])["kwargs"]
+        elif gen == "cuboid":
+            t = tb.make_Cuboid("generic", dimension=(1.0, 2.0, 3.0))["kwargs"]
+        else:
+            t = tb.make_Tetrahedron("generic", vertices=[(0, 0, 0), (1, 0, 0), (0, 1, 0), (0, 0, 1)])["kwargs"]
+    except ValueError:
+        return "err ValueError"
+    except IndexError:
+        return "err IndexError"
+    i, j, k = _ijk_real(t)
+    d = [e for a, b, c_ in zip(i, j, k) for e in ((a, b), (b, c_), (c_, a))]
+    cnt = {}
+    for e in d:
+        cnt[e] = cnt.get(e, 0) + 1
+    first = list(dict.fromkeys(d))
+    bad = [e for e in first if cnt[e] != 1]
+    un = [e for e in first if (e[1], e[0]) not in cnt]
+    fmt = lambda l: " ".join(f"{a}>{b}" for a, b in l)
+    return f"ok {len(i)} ; {fmt(bad)} ; {fmt(un)}"
+
+
 def run_idx(ctx, n, stats):
     import magpylib as magpy
     from magpylib._src.display import traces_base as tb
@@ -634,7 +778,7 @@ def run_idx(ctx, n, stats):
     from magpylib._src.display.traces_utility import get_scene_ranges, rescale_traces
 
     rng = ctx.rng
-    st = {"ellidx": 0, "ellidx_errors": 0, "segidx": 0, "segidx_full": 0, "segidx_r1_zero": 0, "arrow": 0, "arrowv": 0, "mmesh": 0, "mmesh_errors": {},
+    st = {"wind": 0, "group": 0, "ellidx": 0, "ellidx_errors": 0, "segidx": 0, "segidx_full": 0, "segidx_r1_zero": 0, "arrow": 0, "arrowv": 0, "mmesh": 0, "mmesh_errors": {},
           "mmesh_inputs_modified": 0, "mscat": 0, "mscat_line_mode": 0, "mscat_first_input_modified": 0, "mscat_errors": 0, "path": 0, "autounit": 0,
           "autounit_below_one": 0, "autounit_displayed_below_1": 0, "autounit_displayed_min": None, "autounit_displayed_max": None,
           "autounit_factor_not_power_of_ten": 0, "ranges": 0, "idx_distinct": 0}
@@ -655,7 +799,25 @@ def run_idx(ctx, n, stats):
         for mnt in (0.999, 1.0, 1.001, 5.0):
             x = float(f"{mnt}e{k}")
             add(("autounit", x), f"disp autounit {_bits(x)}")
+    # winding of every mesh generator (Props/C19 *_consistently_wound / cylinder_segment_winding): directed edges not used exactly once and
+    # directed edges without reverse, of the REAL index arrays, against Display.windingDefects / unmatchedEdges of the model triangulation
+    for N in range(5, 61):  # the real arc count is max(5, int(vert * |phi1 - phi2| / 360)): vert = 4 N over 90 degrees gives N
+        add(("wind", "seg", N, 0), f"disp wind seg {N} 0")
+        add(("wind", "seg", N, 1), f"disp wind seg {N} 1")
+    for N in range(0, 25):
+        add(("wind", "ell", N), f"disp wind ell {N}")
+    for N in range(0, 61):
+        add(("wind", "prism", N), f"disp wind prism {N}")
+        add(("wind", "pyr", N), f"disp wind pyr {N}")
+    for N in range(0, 41):
+        add(("wind", "arrow", N), f"disp wind arrow {N}")
+    add(("wind", "cuboid"), "disp wind cuboid")
+    add(("wind", "tetra"), "disp wind tetra")
     for _ in range(n):
+        if rng.random() < 0.25:
+            ts = gen_group(rng)
+            add(("group", ts), group_line(ts))
+            continue
         r = rng.random()
         if r < 0.10:
             vert = rng.randint(0, 200)
@@ -735,6 +897,19 @@ def run_idx(ctx, n, stats):
                     real = f"ok {N} {int(full)} ; " + " ; ".join(" ".join(map(str, l)) for l in (i, j, k))
                     if max(i + j + k) >= len(t["x"]) or len(i) not in (8 * (N - 1), 8 * (N - 1) + 4):
                         why = "index out of the vertex array / unexpected face count"
+                elif kind == "group":
+                    real = real_group(c[1])
+                    outs = real.split()[1:]
+                    st["group_merged_outputs"] = st.get("group_merged_outputs", 0) + sum("," in o for o in outs)
+                    st["group_inputs"] = st.get("group_inputs", 0) + len(c[1])
+                    st["group_errors"] = st.get("group_errors", 0) + real.startswith("err")
+                    if real.startswith("ok") and sorted(int(v) for o in outs for v in o.split(":")[1].split(",")) != list(range(len(c[1]))):
+                        why = "an input trace is lost or duplicated by group_traces"
+                elif kind == "wind":
+                    real = real_wind(tb, c)
+                    st["wind_" + c[1]] = st.get("wind_" + c[1], 0) + 1
+                    if real.startswith("ok") and real.split(" ; ")[1].strip():
+                        st["wind_defective"] = st.get("wind_defective", 0) + 1
                 elif kind == "arrow":
                     try:
                         t = tb.make_Arrow("generic", base=c[1])["kwargs"]
